@@ -1,7 +1,14 @@
 import Oracle.Proto
-/-! Oracle suites of property C08 (registered in Oracle/Main.lean through `suites`). -/
+import Oracle.Scheduler
+import Oracle.ActorTimers
+/-! Oracle suites of property C08. -/
 namespace Oracle.C08
 
-def suites : List (String × Suite) := []
+def suites : List (String × Suite) := [
+  ("scheduler", Oracle.Scheduler.model),
+  ("scheduler-spec", Oracle.Scheduler.spec),
+  ("actor-timers", Oracle.ActorTimers.model),
+  ("actor-timers-spec", Oracle.ActorTimers.spec)
+]
 
 end Oracle.C08
